@@ -122,6 +122,35 @@ fn main() {
             println!("d4 paseto-v3 unwraps : {:02x?}", kb.as_ref().map_err(|e| e.to_string()));
             println!("d4 same key: aws-lc={} rustcrypto={}", ka.as_deref().ok() == Some(&key[..]), kb.as_deref().ok() == Some(&key[..]));
         }
+        "d10" => {
+            // k4.local-pw blob whose Argon2 parallelism field is 0x2000_0000 (memory 64 KiB, 1 pass: inside any budget)
+            use paseto_core::version::Local;
+            let mut blob = Vec::new();
+            blob.extend_from_slice(&[7u8; 16]);                    // salt
+            blob.extend_from_slice(&(64u64 * 1024).to_be_bytes()); // mem (bytes)
+            blob.extend_from_slice(&1u32.to_be_bytes());           // time
+            blob.extend_from_slice(&0x2000_0000u32.to_be_bytes()); // para
+            blob.extend_from_slice(&[9u8; 24]);                    // nonce
+            blob.extend_from_slice(&[1u8; 32]);                    // ciphertext
+            blob.extend_from_slice(&[2u8; 32]);                    // tag
+            let txt = format!("k4.local-pw.{}", {
+                struct B<'a>(&'a [u8]);
+                impl std::fmt::Display for B<'_> { fn fmt(&self, f: &mut std::fmt::Formatter<'_>) -> std::fmt::Result {
+                    const A: &[u8; 64] = b"ABCDEFGHIJKLMNOPQRSTUVWXYZabcdefghijklmnopqrstuvwxyz0123456789-_";
+                    let mut out = String::new();
+                    for c in self.0.chunks(3) {
+                        let n = (c[0] as u32) << 16 | (*c.get(1).unwrap_or(&0) as u32) << 8 | *c.get(2).unwrap_or(&0) as u32;
+                        out.push(A[(n >> 18) as usize & 63] as char); out.push(A[(n >> 12) as usize & 63] as char);
+                        if c.len() > 1 { out.push(A[(n >> 6) as usize & 63] as char); }
+                        if c.len() > 2 { out.push(A[n as usize & 63] as char); }
+                    }
+                    f.write_str(&out) } }
+                B(&blob).to_string()
+            });
+            let w: paseto_core::paserk::PasswordWrappedKey<paseto_v4::core::V4, Local> = txt.parse().expect("parses");
+            let r = std::panic::catch_unwind(move || w.unwrap(b"password").map(|_| ()).map_err(|e| e.to_string()));
+            println!("d10 paseto-v4 unwrap of k4.local-pw with para=0x20000000: {}", match r { Ok(x) => format!("returned {x:?}"), Err(_) => "PANICKED".into() });
+        }
         "d9" => {
             // k3.public with the SEC1 *compact* tag 0x05 in front of the x coordinate (49 bytes)
             use paseto_core::version::Public;
